@@ -3,7 +3,7 @@ import itertools
 
 import numpy as np
 
-ELEMENT_POOL = ["C", "H", "O", "N", "Zr", "Cu", "F", "S"]
+ELEMENT_POOL = ["C", "H", "O", "N", "Zr", "Cu", "F", "S", "Ni", "K", "I", "Ar"]     # incl. elements lighter than their predecessor in the table (Ni/Co, K/Ar, I/Te)
 WIDTH = {"bond": 2, "angle": 3, "dihedral": 4, "improper": 4}
 ARR = {"bond": "bonds", "angle": "angles", "dihedral": "dihedrals", "improper": "impropers"}
 KNAMES = ["bond", "angle", "dihedral", "improper"]
